@@ -398,6 +398,35 @@ func c12RandomAlert(r *core.Rand, uniq int) []*gtfsrt.EntitySelector {
 		}
 		out = append(out, s)
 	}
+	// sibling selectors: a copy of an earlier selector whose trip descriptor differs in ONE field (schedule relationship,
+	// start date, direction, route) - two different selectors that a key built from too few fields takes for one
+	if r.Chance(1, 3) {
+		for k := 0; k < 1+r.Intn(2); k++ {
+			src := out[r.Intn(len(out))]
+			if src.Trip == nil {
+				continue
+			}
+			cp := proto.Clone(src).(*gtfsrt.EntitySelector)
+			switch r.Intn(4) {
+			case 0:
+				sr := gtfsrt.TripDescriptor_ScheduleRelationship(core.Pick(r, []int32{0, 1, 2, 3}))
+				cp.Trip.ScheduleRelationship = &sr
+			case 1:
+				cp.Trip.StartDate = rgen.S(core.Pick(r, []string{"20240116", "20240115"}))
+			case 2:
+				cp.Trip.DirectionId = rgen.U32(uint32(r.Intn(2)))
+			default:
+				cp.Trip.RouteId = rgen.S(core.Pick(r, routes))
+			}
+			out = append(out, cp)
+		}
+	}
+	for _, s := range out {
+		if s.Trip != nil && r.Chance(1, 6) {
+			sr := gtfsrt.TripDescriptor_ScheduleRelationship(core.Pick(r, []int32{0, 1, 2, 3}))
+			s.Trip.ScheduleRelationship = &sr
+		}
+	}
 	return out
 }
 
